@@ -1,5 +1,6 @@
 import Obao.Model.RaftFSM
 import Obao.Model.RaftLeader
+import Obao.Model.RaftChunk
 import Obao.Proofs.RaftFSM
 /-!
 C09 — raft replicas applying the same committed log reach the same state and the same verdicts.
@@ -306,6 +307,30 @@ theorem leader_reports_fsm_verdict (a : FsmAnswer) : reported a = a.verdict := b
 rejected chunked transaction as committed -/
 theorem report_before_unwrap_cex :
     reportedBeforeUnwrap (.wrapped .conflict) = .commit ∧ (FsmAnswer.wrapped .conflict).verdict = .conflict := by
+  decide
+
+/-! ### chunked entries -/
+
+open Obao.RaftChunk in
+/-- **Chunking is transparent as long as the replica is not restarted between the chunks**: for a chunking FSM that has
+seen the current term and holds no chunk of operation `op`, the first chunk of a two-chunk operation is stored (nothing
+is handed to the FSM) and the second one completes it — whatever chunks of other operations are held. -/
+theorem chunks_complete_without_restart (c : Chunker) (h : c.termSeen = true) (op : Nat)
+    (hfresh : ∀ s, (op, s) ∉ c.held) :
+    (c.apply op 0 2).2 = false ∧ ((c.apply op 0 2).1.apply op 1 2).2 = true := by
+  have hm0 := hfresh 0
+  have hm1 := hfresh 1
+  have hr : List.range 2 = [0, 1] := by decide
+  constructor
+  · simp [Chunker.apply, h, hm0, hm1, hr]
+  · simp [Chunker.apply, h, hm0, hm1, hr]
+
+open Obao.RaftChunk in
+/-- **Finding F56**: restarted between the two chunks (the in-memory term is lost) the replica drops the stored first
+chunk when the second arrives and never completes the operation — the replicas that were not restarted apply it. -/
+theorem chunked_op_lost_after_restart_cex :
+    let c : Chunker := { held := [], termSeen := true }
+    ((c.apply 5 0 2).1.apply 5 1 2).2 = true ∧ (((c.apply 5 0 2).1.restart).apply 5 1 2).2 = false := by
   decide
 
 end C09
